@@ -321,6 +321,82 @@ func C06(c *fw.Ctx) {
 			}
 		}
 	}
+	// what ran before: a clean history of one of a pool of kinds (closures that outlive a block, a loop
+	// body, a call; recursion; containers built, aliased and emptied; loops left by break and continue; names
+	// shadowed and released) precedes every fault, at the top level and in a function; each history alone is
+	// a clean program (no diagnostic, status 0), with a fault after it the fault is the first diagnostic
+	{
+		n, id := model.Num, model.Id
+		histories := []struct {
+			name string
+			mk   func() []*model.N
+		}{
+			{"closure-outlives-block", func() []*model.N {
+				return []*model.N{model.Var("hh", model.Nil()), model.Block(model.Var("secret", n(42)), model.Fun("reveal", nil, model.Return(id("secret"))), model.ExprS(model.Asg("hh", id("reveal")))), T("left"), model.Print(model.CallN("hh"))}
+			}},
+			{"closures-made-in-loop", func() []*model.N {
+				return []*model.N{model.Var("fns", model.Arr()),
+					model.For(model.Var("i", n(0)), model.Bin("<", id("i"), n(3)), model.Asg("i", model.Bin("+", id("i"), n(1))), model.Block(
+						model.Var("sq", model.Bin("*", id("i"), id("i"))), model.Fun("get", nil, model.Return(id("sq"))), model.ExprS(model.Asg("fns", model.CallN(model.BiAppend, id("fns"), id("get")))))),
+					model.Print(model.Bin("+", model.Bin("+", model.Call(model.Idx(id("fns"), n(0))), model.Call(model.Idx(id("fns"), n(1)))), model.Call(model.Idx(id("fns"), n(2)))))}
+			}},
+			{"closure-outlives-call", func() []*model.N {
+				return []*model.N{model.Fun("mk", []string{"s"}, model.Fun("inc", nil, model.ExprS(model.Asg("s", model.Bin("+", id("s"), n(1)))), model.Return(id("s"))), model.Return(id("inc"))),
+					model.Var("c1", model.CallN("mk", n(10))), model.Var("c2", model.CallN("mk", n(20))), model.Print(model.Arr(model.CallN("c1"), model.CallN("c2"), model.CallN("c1")))}
+			}},
+			{"closure-outlives-branch-and-while", func() []*model.N {
+				return []*model.N{model.Var("hs", model.Arr()), model.Var("k", n(0)),
+					model.While(model.Bin("<", id("k"), n(2)), model.Block(model.If(model.Bool(true), model.Block(model.Var("loc", model.Bin("+", id("k"), n(100))), model.Fun("rd", nil, model.Return(id("loc"))), model.ExprS(model.Asg("hs", model.CallN(model.BiAppend, id("hs"), id("rd"))))), nil),
+						model.ExprS(model.Asg("k", model.Bin("+", id("k"), n(1)))))),
+					model.Print(model.Arr(model.Call(model.Idx(id("hs"), n(0))), model.Call(model.Idx(id("hs"), n(1)))))}
+			}},
+			{"recursion", func() []*model.N {
+				return []*model.N{model.Fun("fib", []string{"m"}, model.If(model.Bin("<", id("m"), n(2)), model.Block(model.Return(id("m"))), nil), model.Return(model.Bin("+", model.CallN("fib", model.Bin("-", id("m"), n(1))), model.CallN("fib", model.Bin("-", id("m"), n(2)))))), model.Print(model.CallN("fib", n(10)))}
+			}},
+			{"containers", func() []*model.N {
+				return []*model.N{model.Var("xs", model.Arr(n(1))), model.Var("ys", id("xs")), model.ExprS(model.Asg("xs", model.CallN(model.BiAppend, id("xs"), n(2)))), model.ExprS(model.Asg("xs", model.CallN(model.BiRemove, id("xs"), n(0)))),
+					model.ExprS(model.Asg("xs", model.CallN(model.BiRemove, id("xs"), n(0)))), model.Print(model.Arr(id("xs"), id("ys"), model.CallN(model.BiLen, id("xs")))),
+					model.Var("ob", model.Obj([]string{"a"}, []*model.N{n(1)})), model.ExprS(model.CallN(model.BiDelete, id("ob"), model.Str("a"))), model.Print(model.CallN(model.BiKeys, id("ob")))}
+			}},
+			{"loops-left-early", func() []*model.N {
+				return []*model.N{model.Var("m", n(0)), model.While(model.Bool(true), model.Block(model.ExprS(model.Asg("m", model.Bin("+", id("m"), n(1)))), model.If(model.Bin("<", id("m"), n(3)), model.Block(model.Continue()), nil), model.Break())),
+					model.For(model.Var("j", n(0)), model.Bin("<", id("j"), n(3)), model.Asg("j", model.Bin("+", id("j"), n(1))), model.Block(model.If(model.Bin("==", id("j"), n(1)), model.Block(model.Continue()), nil), model.Print(id("j")))), model.Print(id("m"))}
+			}},
+			{"shadowing", func() []*model.N {
+				return []*model.N{model.Var("sx", n(1)), model.Block(model.Var("sx", n(2)), model.Block(model.Var("sx", n(3)), model.Print(id("sx"))), model.Print(id("sx"))), model.Print(id("sx")),
+					model.Fun("sf", []string{"sx"}, model.Block(model.Var("sx", n(9)), model.Print(id("sx"))), model.Return(id("sx"))), model.Print(model.CallN("sf", n(5))), model.Print(id("sx"))}
+			}},
+		}
+		for _, hst := range histories {
+			if c.Mine() {
+				prog := append(c06Prelude(), T("begin"))
+				prog = append(prog, hst.mk()...)
+				prog = append(prog, T("end"))
+				judge(c, prog, judgeOpts{SigPrefix: "history-alone|" + hst.name})
+				c.R.States++
+			}
+			for _, f := range faults {
+				if f.E == nil || strings.HasPrefix(f.Name, "builtin-misuse:") {
+					continue
+				}
+				for where := 0; where < 2; where++ {
+					if !c.Mine() {
+						continue
+					}
+					var prog []*model.N
+					body := append([]*model.N{T("begin")}, hst.mk()...)
+					body = append(body, T("before-fault"), model.ExprS(f.E()), T("never"))
+					if where == 0 {
+						prog = append(c06Prelude(), body...)
+					} else {
+						prog = append(c06Prelude(), model.Fun("wrapf", nil, body...), model.ExprS(model.CallN("wrapf")), T("never-either"))
+					}
+					judge(c, prog, judgeOpts{SigPrefix: "history-before|" + hst.name + "|" + f.Name, NoKind: true})
+					c.R.States++
+				}
+			}
+		}
+	}
 	var path []string
 	var rec func()
 	rec = func() {
